@@ -190,6 +190,20 @@ Theorem C08_liftfull_distinct_sources_distinct_subkeys : forall kind params pfil
 Proof. exact Proofs.LiftFullC08.distinct_sources_distinct_subkeys. Qed.
 Print Assumptions C08_liftfull_distinct_sources_distinct_subkeys.
 
+(* The hypothesis of that theorem is EVALUATED: Model.SigAssignSource.source_metas_distinct_b is
+   the boolean the extracted driver of the liftfull engine computes for every definition
+   ./check C08 explores (coverage key `liftfull_hypothesis`); it implies the hypothesis.  It is
+   not met by every valid input: the elements of a declaration tuple `signal (a, b) <-- (x, y)`
+   all get the declaration's own Meta, so their metas coincide although their subkeys do not;
+   on those definitions the conclusion [subkeys_distinct] is evaluated directly
+   (Model.SigAssignSource.lifted_subkeys_distinct_b) instead of being inferred. *)
+Require Model.SigAssignSource.
+Theorem C08_liftfull_source_metas_distinct_b_sound : forall body,
+  Model.SigAssignSource.source_metas_distinct_b body = true ->
+  NoDup (map Model.Ast.stmt_meta (Proofs.LiftFullC08.source_signal_assignments body)).
+Proof. exact Proofs.LiftFullC08.source_metas_distinct_b_sound. Qed.
+Print Assumptions C08_liftfull_source_metas_distinct_b_sound.
+
 (* `template T() { signal input a; signal output b; signal c; b <-- a; c <== a; c --> b; }`
    (declarations omitted from the body): two AssignSignal statements, at 10..17 and 27..34 *)
 From Coq Require Import String.
